@@ -54,6 +54,19 @@ harness!(dec_boundaries, 12, {
     std::mem::forget((a, b, c, d, e));
 });
 
+//# harness dec_leading_zeros tier=quick label=bounded(3-inputs) props=C10,C06 fn=rusty_parser/src/expr/integer_or_long_literal.rs::process_dec timeout=1800
+harness!(dec_leading_zeros, 14, {
+    // "the narrowest type that holds it" is a matter of the VALUE, not of the number of digits written
+    let lit = |s: &str| process_dec(Token::new(TokenType::Digits.get_index(), String::from(s)));
+    let a = lit("007");
+    assert!(matches!(&a, Ok(Expression::IntegerLiteral(7))), "leading zeros do not widen the type");
+    let b = lit("00000032767");
+    assert!(matches!(&b, Ok(Expression::IntegerLiteral(32767))), "eleven digits, still an INTEGER value");
+    let c = lit("002147483647");
+    assert!(matches!(&c, Ok(Expression::LongLiteral(2147483647))), "twelve digits, still a LONG value");
+    std::mem::forget((a, b, c));
+});
+
 //# harness hex_digit_value tier=quick label=complete props=C10,C07 fn=rusty_parser/src/expr/integer_or_long_literal.rs::convert_hex_digit
 harness!(hex_digit_value, 2, {
     // every char that is a hex digit, either letter case
